@@ -162,6 +162,8 @@ func (m *mTracker) DelNick(n string) *state.Nick {
 	}
 	s := m.nickSnap(n)
 	m.dropNick(n)
+	// the snapshot is that of the deleted nick: it is on no channel any more
+	s.Channels = map[string]*state.ChanPrivs{}
 	return s
 }
 
@@ -222,6 +224,8 @@ func (m *mTracker) DelChannel(c string) *state.Channel {
 	}
 	s := m.chanSnap(c)
 	m.forgetChannel(c)
+	// the snapshot is that of the deleted channel: nobody is on it any more
+	s.Nicks = map[string]*state.ChanPrivs{}
 	return s
 }
 
@@ -550,7 +554,7 @@ func applyOp(t trackerLike, o tOp) (string, interface{}) {
 		return encNick(r, true), r
 	case "DelNick":
 		r := t.DelNick(a[0])
-		return encNick(r, false), r // memberships of the returned snapshot are unspecified
+		return encNick(r, true), r // the snapshot of a deleted nick: all its memberships are gone
 	case "NickInfo":
 		r := t.NickInfo(a[0], a[1], a[2], a[3])
 		return encNick(r, true), r
@@ -565,7 +569,7 @@ func applyOp(t trackerLike, o tOp) (string, interface{}) {
 		return encChan(r, true), r
 	case "DelChannel":
 		r := t.DelChannel(a[0])
-		return encChan(r, false), r
+		return encChan(r, true), r
 	case "Topic":
 		r := t.Topic(a[0], a[1])
 		return encChan(r, true), r
